@@ -22,5 +22,5 @@ def run(ctx):
     if not ctx.build():
         return
     fx, cases = alloc_common.make_cases(ctx, ctx.scale(1500, 60000),
-                                        profiles=["heapcap", "atomcap", "paircap", "heapcap", "atomcap", "paircap", "f2", "general", "gc", "substr"])
+                                        profiles=["heapcap", "atomcap", "paircap", "heapcap", "atomcap", "paircap", "f2", "general", "gc", "gccap", "gccap", "substr"])
     alloc_common.run_all(ctx, cases, "caps")
